@@ -153,8 +153,28 @@ type IndexStorage struct {
 func (c *IndexStorage) SetIndex(idx *index.Index) error {
 	// Set ModTime to enable racy git detection in the metadata optimization.
 	idx.ModTime = time.Now()
-	c.index = idx
+	c.index = copyIndex(idx)
 	return nil
+}
+
+// copyIndex returns a copy of the Index struct with its own Entries slice and
+// its own copy of every Entry. Worktree operations update the index they get
+// from Index in place and only store it when they succeed, so the stored index
+// must not be reachable through what was handed out, as with the filesystem
+// storage.
+func copyIndex(idx *index.Index) *index.Index {
+	cp := *idx
+	if idx.Entries != nil {
+		cp.Entries = make([]*index.Entry, len(idx.Entries))
+	}
+	for i, e := range idx.Entries {
+		if e == nil {
+			continue
+		}
+		ce := *e
+		cp.Entries[i] = &ce
+	}
+	return &cp
 }
 
 // Index returns the stored index.
@@ -170,7 +190,7 @@ func (c *IndexStorage) Index() (*index.Index, error) {
 		c.index = &index.Index{Version: 2}
 	}
 
-	return c.index, nil
+	return copyIndex(c.index), nil
 }
 
 // ObjectStorage implements storer.EncodedObjectStorer for in-memory storage.
